@@ -4,12 +4,14 @@ pub mod c02;
 pub mod c03;
 pub mod c04;
 pub mod c05;
+pub mod c08;
 pub mod c09;
 pub mod c10;
 pub mod c11;
 pub mod c12;
 pub mod c13;
 pub mod c13_e2e;
+pub mod c16;
 pub mod c19;
 pub mod dump;
 
@@ -22,11 +24,13 @@ pub fn run(id: &str, tier: &str) -> Option<i32> {
         "C03" => { let r = Report::new(id, tier, "model_checking"); c03::check(&r); r }
         "C04" => { let r = Report::new(id, tier, "model_checking"); c04::check(&r); r }
         "C05" => { let r = Report::new(id, tier, "model_checking"); c05::check(&r); r }
+        "C08" => { let r = Report::new(id, tier, "model_checking"); c08::check(&r); r }
         "C09" => { let r = Report::new(id, tier, "model_checking"); c09::check(&r); r }
         "C10" => { let r = Report::new(id, tier, "model_checking"); c10::check(&r); r }
         "C11" => { let r = Report::new(id, tier, "model_checking"); c11::check(&r); r }
         "C12" => { let r = Report::new(id, tier, "model_checking"); c12::check(&r); r }
         "C13" => { let r = Report::new(id, tier, "model_checking"); c13::check(&r); r }
+        "C16" => { let r = Report::new(id, tier, "model_checking"); c16::check(&r); r }
         "C19" => { let r = Report::new(id, tier, "model_checking"); c19::check(&r); r }
         _ => return None,
     };
@@ -40,11 +44,13 @@ pub fn replay(id: &str, path: &str) -> Option<i32> {
         "C03" => Some(c03::replay(path)),
         "C04" => Some(c04::replay(path)),
         "C05" => Some(c05::replay(path)),
+        "C08" => Some(c08::replay(path)),
         "C09" => Some(c09::replay(path)),
         "C10" => Some(c10::replay(path)),
         "C11" => Some(c11::replay(path)),
         "C12" => Some(c12::replay(path)),
         "C13" => Some(c13::replay(path)),
+        "C16" => Some(c16::replay(path)),
         "C19" => Some(c19::replay(path)),
         _ => None,
     }
